@@ -2,11 +2,13 @@
 from checks import actors_common as ac
 
 THEOREMS = ['Poupool.C08.filtration_timers', 'Poupool.C08.tank_timers', 'Poupool.C08.heating_timers', 'Poupool.C08.disinfection_timers', 'Poupool.C08.swim_timers', 'Poupool.C08.arduino_timers', 'Poupool.C08.filtration_timeouts', 'Poupool.C08.filtration_poll_periods', 'Poupool.C08.other_timeouts', 'Poupool.C08.durations_resolved']
+TIMING = ['Poupool.Timing.filtration_const_end_on_time', 'Poupool.Timing.filtration_setting_end_on_time', 'Poupool.Timing.filtration_polls', 'Poupool.Timing.heating_recovering', 'Poupool.Timing.heating_polls', 'Poupool.Timing.disinfection_end_on_time', 'Poupool.Timing.swim_wintering_stir', 'Poupool.Timing.swim_polls', 'Poupool.Timing.tank_polls']
 MODULE = "Poupool.Properties.C08"
 
 
 def run(chk):
     ac.run_actor_property(chk, MODULE, THEOREMS, monitor_pids=["C08"], extra=globals().get("extra"))
+    ac.timing_theorems(chk, TIMING)
 
 
 def search(chk):
